@@ -162,7 +162,7 @@ Definition maded (r : Z) : terr := (-1000 - r, 1000%nat).
 (* the non-triggering configurations of harness/src/bin/c20.rs (modes 0 and 4) *)
 Definition cb_cfg : Circuit.cfg :=
   Circuit.mkCfg false 100 0 1000 1 2 false 0 1 1 5 1 false.
-Definition rl_cfg : RateLimiter.cfg := RateLimiter.mkCfg RateLimiter.Fixed 1000 1000 0.
+Definition rl_cfg : RateLimiter.cfg := RateLimiter.mkCfg RateLimiter.Fixed 1000 1000 0 0.
 Definition tl_cfg (cancel : bool) : TimeLimiter.cfg :=
   {| TimeLimiter.cancel := cancel; TimeLimiter.tmo := fun _ => 10000; TimeLimiter.gran := 1 |}.
 Definition never {A} : A -> bool := fun _ => false.
@@ -222,7 +222,7 @@ Definition pre_events (id : Z) : list Z :=
   else if is_id id [1; 22] then [0]         (* rate limiter: PermitAcquired *)
   else if is_id id [2; 13] then [1]         (* circuit breaker: CallPermitted *)
   else if id =? 5 then [1]                  (* cache: Miss *)
-  else if is_id id [7; 20] then [0]         (* hedge: PrimaryStarted *)
+  else if is_id id [7; 20; 26] then [0]     (* hedge: PrimaryStarted *)
   else if id =? 12 then [2]                 (* chaos: PassedThrough *)
   else [].
 
@@ -233,13 +233,14 @@ Definition post_events (id : Z) (kind : Z) : list Z :=
   else if is_id id [3; 15] then [if ok then 1 else 3]   (* retry: Success / IgnoredError *)
   else if is_id id [4; 14] then [if ok then 0 else 1]   (* time limiter: Success / Error *)
   else if id =? 6 then [if ok then 0 else 4]            (* fallback: Success / Skipped *)
-  else if is_id id [7; 20] then (if ok then [2] else [])  (* hedge: PrimarySucceeded *)
+  else if is_id id [7; 20; 26] then (if ok then [2] else [])  (* hedge: PrimarySucceeded *)
   else if id =? 8 then (if ok then [0] else [])         (* reconnect: on_state_change(-> Connected) *)
   else [].
 
-(* every listener API of the thirteen layers goes through EventListeners::emit (catch_unwind);
-   reconnect's two callbacks (crate feature `tracing`) are wrapped in catch_unwind one by one *)
-Definition guarded_of (id : Z) : bool := true.
+(* every listener API of the thirteen layers goes through EventListeners::emit (catch_unwind around the
+   listener and around the drop of its panic payload, fix afefac0); reconnect's two callbacks (crate
+   feature `tracing`) go through the helper `observe`, which does the same (fixes 484f229, 56b9388) *)
+Definition guarded_of (id : Z) : guard := GCatchDrop.
 
 (* reconnect has one callback per kind: listener 0 is on_state_change (kind 0), listener 1 is
    on_reconnect (kind 1), further listeners are not registered *)
@@ -274,8 +275,11 @@ Fixpoint run_lstack (ids : list Z) (ls : list listener) (inner : final)
 
 Definition NK : nat := 6.
 
+(* panic mask: bit i = listener i panics (String payload), bit i + 4 = it panics with a payload whose
+   Drop panics *)
 Definition listener_of (mask : Z) (i : nat) : listener :=
-  fun _ => if Z.testbit mask (Z.of_nat i) then Panics else Returns.
+  fun _ => if Z.testbit mask (Z.of_nat i + 4) then Bombs
+           else if Z.testbit mask (Z.of_nat i) then Panics else Returns.
 
 Fixpoint zip_app {A} (a b : list (list A)) : list (list A) :=
   match a, b with
@@ -300,10 +304,12 @@ Fixpoint run_l4 (ids : list Z) (ls : list listener) (l : list (Z * Z * Z))
 Definition counts_of (nl : nat) (deliveries : list (Z * list lresult)) : list Z :=
   concat (map (fun i => map (fun e => count_kind i (Z.of_nat e) deliveries) (seq 0 NK)) (seq 0 nl)).
 
+(* outcomes, the counts of the run with the script's panic mask, the counts of the reference run of
+   the same script with well-behaved listeners *)
 Definition l4_trace (ids : list Z) (nl : nat) (mask : Z) (reqs : list (Z * Z * Z)) : list Z :=
-  let ls := map (listener_of mask) (seq 0 nl) in
-  let '(out, acc) := run_l4 ids ls reqs (map (fun _ => []) ids) in
-  out ++ concat (map (counts_of nl) acc).
+  let '(out, acc) := run_l4 ids (map (listener_of mask) (seq 0 nl)) reqs (map (fun _ => []) ids) in
+  let '(_, acc0) := run_l4 ids (map (listener_of 0) (seq 0 nl)) reqs (map (fun _ => []) ids) in
+  out ++ concat (map (counts_of nl) acc) ++ concat (map (counts_of nl) acc0).
 
 Definition run_listeners_stack (sc : list Z) : list Z :=
   let n := Z.to_nat (zn sc 1) in
